@@ -5,6 +5,7 @@ import (
 	"encoding/json"
 	"fmt"
 	"os"
+	"path/filepath"
 	"strings"
 	"sync"
 	"testing"
@@ -628,6 +629,20 @@ func genC11(rt *rapid.T) c11Case {
 	for i := 0; i < n; i++ {
 		cs.Sizes = append(cs.Sizes, rapid.SampledFrom([]int{0, 0, 1, 1, 2}).Draw(rt, "size"))
 	}
+	if rapid.IntRange(0, 7).Draw(rt, "byteshape") == 0 {
+		// byte-binding shape: messages of one size, a byte limit that holds
+		// exactly k of them (one byte short of k+1), more message slots than that,
+		// and more than k messages waiting - the budget has to add up
+		class := rapid.IntRange(0, 2).Draw(rt, "class")
+		k := rapid.IntRange(1, 3).Draw(rt, "k")
+		sz := len(c11Payload(0, class))
+		cs.MaxMsgs = rapid.SampledFrom([]int{5, 1000}).Draw(rt, "maxmsgs2")
+		cs.MaxBytes = (k+1)*sz - 1
+		cs.Sizes = nil
+		for i := 0; i < k+rapid.IntRange(1, 3).Draw(rt, "extra"); i++ {
+			cs.Sizes = append(cs.Sizes, class)
+		}
+	}
 	ns := rapid.IntRange(2, 9).Draw(rt, "nsteps")
 	for i := 0; i < ns; i++ {
 		k := rapid.SampledFrom([]string{"ack", "ack", "nack", "nack0", "nack0", "extack", "extack", "extack-window", "publish", "wait", "mixed"}).Draw(rt, "step")
@@ -648,6 +663,31 @@ func TestC11(t *testing.T) {
 	defer reportFailure(t, "C11")
 	s := getSUT(t)
 	defer closeSUT()
+	// canary scripts of known findings (F13): deterministic KNOWN-FINDING line
+	dir := os.Getenv("VERIF_KNOWN_DIR")
+	if dir == "" {
+		dir = "/verif/known"
+	}
+	files, _ := filepath.Glob(filepath.Join(dir, "C11-*.json"))
+	for _, f := range files {
+		b, err := os.ReadFile(f)
+		if err != nil {
+			continue
+		}
+		var d struct {
+			Case c11Case `json:"case"`
+		}
+		if json.Unmarshal(b, &d) != nil || d.Case.Kind != "stream" {
+			continue
+		}
+		rule, detail, _ := runC11(s, d.Case)
+		stats.C.EvalN(1)
+		stats.C.Class("canary/"+filepath.Base(f), 1)
+		if rule != "" && rule != "harness" {
+			violate(t, "C11", failure{Rule: rule, Detail: "canary " + filepath.Base(f) + ": " + detail, Sig: map[string]any{"rule": rule}, Replay: d.Case})
+			t.FailNow()
+		}
+	}
 	rapid.Check(t, func(rt *rapid.T) {
 		cs := genC11(rt)
 		rule, detail, nt := runC11(s, cs)
